@@ -56,9 +56,13 @@ def walk(
     m: h.Module,
     parents: List[h.Instance],
     conns: Optional[Dict[str, h.Signal]] = None,
+    reserved: Optional[Dict[str, h.Signal]] = None,
 ) -> Generator[FlattenedInstance, None, None]:
     if conns is None:
         conns = {**m.signals, **m.ports}
+    if reserved is None:
+        # The names of the top-level Signals, which keep their names
+        reserved = conns
     for inst in m.instances.values():
         new_conns = {}
         new_parents = parents + [inst]
@@ -79,6 +83,10 @@ def walk(
             new_sig_name = ":".join([p.name for p in parents] + [key])
             if key in conns:
                 target_sig = conns[key]
+            elif new_sig_name in reserved:
+                # The path-name of this internal Signal is already taken by a top-level one; using it would short the two.
+                msg = f"Cannot flatten: internal signal name `{new_sig_name}` collides with a top-level Signal"
+                raise RuntimeError(msg)
             elif key in m.signals:
                 target_sig = replace(
                     _copy_to_internal(m.signals[key]), name=new_sig_name
@@ -92,7 +100,7 @@ def walk(
         if isinstance(inst.of, (h.PrimitiveCall, h.ExternalModuleCall)):
             yield FlattenedInstance(inst, new_parents, new_conns)
         else:
-            yield from walk(inst.of, new_parents, new_conns)
+            yield from walk(inst.of, new_parents, new_conns, reserved)
 
 
 def _find_signal_or_port(m: h.Module, name: str) -> h.Signal:
